@@ -167,10 +167,13 @@ class C04(Prop):
             pending = run.wire_dec[(s, ex["serial"])]
             # direct attribution check, independent of the acceptance model
             if "ok" in res:
+                delivered = run.dgrams[ex["rx"][-1]]["label"] if ex["rx"] else {}
                 for st in _stamps(res["ok"]):
                     if st != ex["serial"]:
                         other = run.wire_dec.get((s, st), {})
-                        if other.get("request_id") != pending.get("request_id"):
+                        # (an answer to another request whose id was rewritten to the outstanding id is
+                        # entitled to delivery: only the ids decide - think of a sequential id generator)
+                        if other.get("request_id") != pending.get("request_id") and delivered.get("request_id") != pending.get("request_id"):
                             out.append(V("C04.value-of-other-request", "op %s (request serial %d, id %s) returned a value stamped for request serial %d (id %s)" % (op["op"], ex["serial"], pending.get("request_id"), st, other.get("request_id")), op=op["op"]))
             if kind == UNKNOWN:
                 continue
